@@ -20,7 +20,8 @@ RULE = ('seeded worlds biased to channels absent from segments, multi-chunk segm
         '{None,+-1,+-2,+-3,0} and integer indices in [-len-2,len+1], each run on a lazily opened and an eagerly '
         'read handle and compared with numpy indexing on the full array. distinct = (segment shape sequence, '
         'cut class); non-trivial = at least one non-empty window compared')
-EXPECTED_PROBES = ['window-ends-in-multichunk-after-gap', 'window-in-truncated-last-chunk', 'empty-window-at-boundary']
+EXPECTED_PROBES = ['window-ends-in-multichunk-after-gap', 'window-in-truncated-last-chunk', 'empty-window-at-boundary',
+                   'daqmx-window']
 
 
 def opts(tier):
@@ -37,14 +38,28 @@ def opts(tier):
 def generate(rng, tier):
     o = opts(tier)
     raw_ts = rng.random() < 0.5
-    spec, w, _ = gen.gen_world(rng, o)
+    from .c11 import maybe_daqmx_world
+    spec = maybe_daqmx_world(rng, 0.1)
+    daq = spec is not None
+    if spec is None:
+        spec, w, _ = gen.gen_world(rng, o)
+    else:
+        w = build(spec)
     cut = None
     last = w.segs[-1]
-    if last.end - last.data_pos > 1 and rng.random() < 0.2:
+    if not daq and last.end - last.data_pos > 1 and rng.random() < 0.2:
         cut = rng.randint(last.data_pos + 1, last.end - 1)
     reqs = _lazy.gen_requests(rng, w, tier)
+    for r in reqs:
+        if r['op'] == 'read_data' and w.chans[r['ch']].type == 'daqmx' and rng.random() < 0.5:
+            r['scaled'] = False
     return {'spec': spec, 'raw_ts': raw_ts, 'cut': cut, 'ops': reqs,
             'short_seed': rng.getrandbits(32) if rng.random() < 0.3 else None}
+
+
+def _sig(spec):
+    from .c11 import daqmx_sig
+    return daqmx_sig(spec) if any(s.get('layout') == 'daqmx' for s in spec['segments']) else shape_sig(spec)
 
 
 def gap_probe(res, w, op, n):
@@ -75,7 +90,7 @@ def execute(case):
     w = build(spec)
     raw_ts = case['raw_ts']
     data = w.data if case['cut'] is None else w.data[:case['cut']]
-    res.sig = [shape_sig(spec), None if case['cut'] is None else 'cut']
+    res.sig = [_sig(spec), None if case['cut'] is None else 'cut']
     with store(short_seed=case['short_seed'], record=False) as st:
         st.put('w.tdms', data)
         try:
@@ -98,7 +113,10 @@ def execute(case):
                     fulls[path] = None
         for i, op in enumerate(case['ops']):
             full = fulls.get(op['ch'])
-            if full is None or (full[0] == 'dict'):
+            if case['cut'] is None and w.chans[op['ch']].type == 'daqmx':
+                full = _lazy.op_full(w, w.chans[op['ch']], op, raw_ts)
+                res.probe('daqmx-window')
+            if full is None or (full[0] == 'dict' and op.get('scaled', True)):
                 res.skipped_ops += 1
                 continue
             n = _lazy.full_len(full)
@@ -145,4 +163,4 @@ def shrink_candidates(case):
 
 
 def sample(case):
-    return {'segments': shape_sig(case['spec']), 'cut': case['cut'], 'n_ops': len(case['ops']), 'ops': case['ops'][:6]}
+    return {'segments': _sig(case['spec']), 'cut': case['cut'], 'n_ops': len(case['ops']), 'ops': case['ops'][:6]}
